@@ -155,3 +155,26 @@ Proof.
   - rewrite !deliver_never by exact Hon. rewrite H. reflexivity.
   - rewrite !(deliver_plain inflate_never c _ d Hon). rewrite H. reflexivity.
 Qed.
+
+(* ---------- phase 4: a well-formed stream in the sense of the truncation theorem ---------- *)
+From TV Require Import C08.ProofsP4.
+Definition one_chunk : list (bytes * bytes) := [(s2b "3", s2b "hel")].
+Example ex_wf_stream :
+  wf_stream (cfg_ex true false false)
+            (CONT ++ TE ++ chunks_wire one_chunk ++ s2b "0" ++ CRLF ++ CRLF) (chunks_data one_chunk).
+Proof.
+  apply (wf_interim _ _ CONT (TE ++ chunks_wire one_chunk ++ s2b "0" ++ CRLF ++ CRLF)
+                    100%N (Some (s2b "Continue")) []); try (vm_compute; reflexivity).
+  apply (wf_final _ _ TE (chunks_wire one_chunk ++ s2b "0" ++ CRLF ++ CRLF)
+                  200%N (Some (s2b "OK")) [(s2b "Transfer-Encoding", [s2b "chunked"])]);
+    try (vm_compute; reflexivity).
+  change (is_head (cfg_ex true false false) || (200 =? 304)%N) with false. cbv iota.
+  exists PChunked, [(s2b "Transfer-Encoding", [s2b "chunked"])]. split; [vm_compute; reflexivity|].
+  apply wf_chunked; [reflexivity|simpl; lia| |vm_compute; discriminate].
+  repeat constructor; try (vm_compute; lia); discriminate.
+Qed.
+(* ... cut in the middle of the chunk data: an error, "he" was delivered *)
+Example ex_cut_stream :
+  strictT (cfg_ex true false false) (CONT ++ TE ++ s2b "3" ++ CRLF ++ s2b "he")
+  = Res (OErr EConnClosed) true (s2b "he") false.
+Proof. vm_compute. reflexivity. Qed.
